@@ -62,5 +62,68 @@ def main():
     sys.exit(1 if fails else 0)
 
 
+def main_more():
+    """bounded stand-in: further group operations on small fixed networks against a set model -- attaching to a group that is not the first
+    row of net.group, the cascade of drop_buses over switches and measurements, re-indexing a part of the elements"""
+    import warnings
+    warnings.filterwarnings("ignore")
+    fails = []
+    # (1) attach_to_group to the second group (its reference_column is stored as NaN)
+    net = pp.create_empty_network()
+    pp.create_buses(net, 3, 20.)
+    for b in range(3):
+        pp.create_load(net, b, 0.1)
+    g0 = pp.create_group(net, "load", [[0]], name="g0")
+    g1 = pp.create_group(net, "load", [[1]], name="g1")
+    cols = list(net.load.columns)
+    pp.attach_to_group(net, g1, "load", [[2]])
+    got = members(net, g1).get("load")
+    if got != {1, 2}:
+        fails.append(f"attach_to_group(net, {g1}, 'load', [[2]]): members {got}, set model {{1, 2}}")
+    if list(net.load.columns) != cols:
+        fails.append(f"attach_to_group added columns {[c for c in net.load.columns if c not in cols]} to net.load")
+    # (2) drop_buses: switches and measurements at the bus leave their groups
+    net = pp.create_empty_network()
+    b = pp.create_buses(net, 4, 20.)
+    for f, t in ((0, 1), (1, 2), (2, 3)):
+        pp.create_line_from_parameters(net, b[f], b[t], 1., 0.1, 0.1, 10., 0.4)
+    sw = [pp.create_switch(net, b[1], 0, "l"), pp.create_switch(net, b[2], 1, "l"), pp.create_switch(net, b[2], 2, "l"), pp.create_switch(net, b[3], 2, "l")]
+    ms = [pp.create_measurement(net, "v", "bus", 1., 0.01, b[2]), pp.create_measurement(net, "v", "bus", 1., 0.01, b[1])]
+    ga = pp.create_group(net, ["switch", "measurement"], [sw, ms], name="A")
+    gb = pp.create_group(net, ["switch"], [[sw[2]]], name="B")
+    pp.drop_buses(net, [b[2]])
+    want_sw = set(net.switch.index) & set(sw)
+    want_ms = set(net.measurement.index) & set(ms)
+    got_a = members(net, ga)
+    if got_a.get("switch", set()) != want_sw:
+        fails.append(f"drop_buses: group A lists switches {sorted(got_a.get('switch', set()))}, the switches left in the net are {sorted(want_sw)}")
+    if got_a.get("measurement", set()) != want_ms:
+        fails.append(f"drop_buses: group A lists measurements {sorted(got_a.get('measurement', set()))}, left in the net are {sorted(want_ms)}")
+    if gb in net.group.index:
+        fails.append(f"drop_buses: group B still has a row ({members(net, gb)}) although its only member was dropped")
+    # (3) reindex_elements for a part of the elements
+    for kw, label in ((dict(lookup={0: 10}), "lookup={0: 10}"), (dict(lookup={0: 10, 1: 3, 2: 2, 3: 1}, old_indices=[0]), "old_indices=[0] with a longer lookup")):
+        net = pp.create_empty_network()
+        pp.create_buses(net, 4, 20.)
+        for k in range(4):
+            pp.create_load(net, k, 0.1, name=f"L{k}")
+        g = pp.create_group(net, "load", [[0, 1, 2]], name="g")
+        try:
+            pp.reindex_elements(net, "load", **kw)
+            err = ""
+        except Exception as e:
+            err = f" (raised {type(e).__name__}: {e})"
+        mem = members(net, g).get("load", set())
+        names = {net.load.name.at[i] for i in mem if i in net.load.index}
+        if err or names != {"L0", "L1", "L2"} or not mem <= set(net.load.index):
+            fails.append(f"reindex_elements(net, 'load', {label}){err}: net.load.index = {net.load.index.tolist()}, group members {sorted(mem)} "
+                         f"= loads {sorted(names)}, set model L0, L1, L2")
+    for f in fails:
+        print("REPRODUCED:", f)
+    if not fails:
+        print("not reproduced: group membership follows the set model")
+    sys.exit(1 if fails else 0)
+
+
 if __name__ == "__main__":
     main()
